@@ -9,49 +9,75 @@ From TD Require Import Lib.Bytes Lib.GoSem Lib.GoSlice Gen.HandleConsts Model.Tl
 Import ListNotations.
 Open Scope Z_scope.
 
-(* No panic, for all bytes and all budgets; and the container budget `fuel` is never exhausted
-   when it is at least the payload length (each container level strips at least 24 bytes; a
-   gzip level hands its decompressed content a fresh budget = its length).  The only budget
-   that an input can exhaust is gz, the number of nested gzip_packed layers. *)
+(* No panic, for all bytes and every remaining nesting budget; and the deepest container / gzip
+   level the handler enters never exceeds the budget.  Conn.handleMessage starts with the
+   budget maxMessageNesting (generated from mtproto/handle_message.go), so at most that many
+   decoded containers (each no longer than its input) and decompressed contents (each shorter
+   than proto.GZIP's 10 MiB limit, C23_gzip_bound) are alive at once, whatever the payload and
+   whatever DEFLATE does (a gzip quine included). *)
 Theorem C23_total :
-  forall gunzip notify_ok on_message_ok on_session_ok gz fuel msg_id b,
+  forall gunzip notify_ok on_message_ok on_session_ok budget msg_id b,
     bytes_ok b ->
-    snd (handle gunzip notify_ok on_message_ok on_session_ok gz fuel msg_id b) <> SPanic /\
-    (len b <= Z.of_nat fuel ->
-     snd (handle gunzip notify_ok on_message_ok on_session_ok gz fuel msg_id b) <> SErr HFuel).
-Proof.
-  exact (fun g n m s gz fuel msg_id b OK =>
-           conj (handle_np g n m s gz fuel msg_id b OK) (handle_nf g n m s gz fuel msg_id b OK)).
-Qed.
+    snd (fst (handle gunzip notify_ok on_message_ok on_session_ok budget msg_id b)) <> SPanic.
+Proof. exact handle_np. Qed.
 Print Assumptions C23_total.
+Theorem C23_depth :
+  forall gunzip notify_ok on_message_ok on_session_ok msg_id b,
+    (forall budget, (snd (handle gunzip notify_ok on_message_ok on_session_ok budget msg_id b) <= budget)%nat) /\
+    Z.of_nat (snd (handle_message gunzip notify_ok on_message_ok on_session_ok msg_id b)) <= c_maxMessageNesting.
+Proof.
+  exact (fun g n m s msg_id b =>
+           conj (fun budget => handle_depth g n m s budget msg_id b)
+                (eq_ind _ (fun x => Z.of_nat (snd (handle_message g n m s msg_id b)) <= x)
+                        (proj1 (Nat2Z.inj_le _ _) (handle_depth g n m s (Z.to_nat c_maxMessageNesting) msg_id b)) _
+                        (Z2Nat.id c_maxMessageNesting ltac:(discriminate)))).
+Qed.
+Print Assumptions C23_depth.
+Theorem C23_gzip_bound :
+  forall gunzip b d, bytes_ok b -> dec_gzip gunzip b = Ok d -> bytes_ok d /\ len d < c_maxUncompressedSize.
+Proof. exact (fun g b d OK => proj2 (dec_gzip_good g b OK) d). Qed.
+Print Assumptions C23_gzip_bound.
 
-(* Routing: every NotifyResult(id, _) effect is caused by a (sub)message -- the payload, a
-   container member, or the decompression of a gzip_packed (sub)message -- that is an
-   rpc_result whose req_msg_id field is id; every NotifyError(id, _) by an rpc_result,
-   bad_msg_notification or bad_server_salt whose req_msg_id / bad_msg_id field is id. *)
+(* Routing: every NotifyResult(id, payload) effect is caused by a (sub)message m -- the payload,
+   a container member, or the decompression of a gzip_packed (sub)message -- such that m decodes
+   as rpc_result with req_msg_id = id and `payload` is exactly m's body or the decompression of
+   its gzip_packed body; every NotifyError(id, code) by an rpc_result for id whose (possibly
+   decompressed) body is an rpc_error with that code, or by a bad_msg_notification /
+   bad_server_salt carrying exactly (id, code). *)
 Theorem C23_routing :
-  forall gunzip notify_ok on_message_ok on_session_ok gz fuel msg_id b,
-    Forall (routed gunzip b) (fst (handle gunzip notify_ok on_message_ok on_session_ok gz fuel msg_id b)).
+  forall gunzip notify_ok on_message_ok on_session_ok budget msg_id b,
+    Forall (routed gunzip b) (fst (fst (handle gunzip notify_ok on_message_ok on_session_ok budget msg_id b))).
 Proof. exact handle_routed. Qed.
 Print Assumptions C23_routing.
 
-(* ---- non-vacuity: a container with rpc_result(8, boolTrue), bad_msg_notification(12, code 16),
-        pong(ping 3), rpc_result(20, rpc_error 420) produces exactly the four notifications;
-        a gzip_packed rpc_result(24, boolFalse) is routed through the decompression ---- *)
+(* The two registries of waiters (pending pings in handlePong, pending acks in
+   rpc.Engine.NotifyAcks) are updated with close(ch); delete(m, id): starting from a registry of
+   open channels, no sequence of notifications -- repeated ids included -- closes a channel twice. *)
+Theorem C23_no_double_close :
+  forall ids r, all_open r -> exists r', close_all r ids = Ok r' /\ all_open r'.
+Proof. exact close_all_no_panic. Qed.
+Print Assumptions C23_no_double_close.
+
+(* ---- non-vacuity ---- *)
 Definition ex_container : list Z :=
   [220; 248; 241; 115; 4; 0; 0; 0; 100; 0; 0; 0; 0; 0; 0; 0; 0; 0; 0; 0; 16; 0; 0; 0; 1; 109; 92; 243; 8; 0; 0; 0; 0; 0; 0; 0; 181; 117; 114; 153; 101; 0; 0; 0; 0; 0; 0; 0; 1; 0; 0; 0; 20; 0; 0; 0; 17; 248; 239; 167; 12; 0; 0; 0; 0; 0; 0; 0; 1; 0; 0; 0; 16; 0; 0; 0; 102; 0; 0; 0; 0; 0; 0; 0; 2; 0; 0; 0; 20; 0; 0; 0; 197; 115; 119; 52; 4; 0; 0; 0; 0; 0; 0; 0; 3; 0; 0; 0; 0; 0; 0; 0; 103; 0; 0; 0; 0; 0; 0; 0; 3; 0; 0; 0; 28; 0; 0; 0; 1; 109; 92; 243; 20; 0; 0; 0; 0; 0; 0; 0; 25; 202; 68; 33; 164; 1; 0; 0; 5; 70; 76; 79; 79; 68; 0; 0].
 Example C23_nonvacuous_container :
-  handle (fun _ => None) (fun _ _ => true) (fun _ => true) (fun _ => true) 0 (length ex_container) 7 ex_container
-  = ([ENotifyResult 8 [181; 117; 114; 153]; ENotifyError 12 16; EPong 3; ENotifyError 20 420], SOk).
+  handle_message (fun _ => None) (fun _ _ => true) (fun _ => true) (fun _ => true) 7 ex_container
+  = (([ENotifyResult 8 [181; 117; 114; 153]; ENotifyError 12 16; EPong 3; ENotifyError 20 420], SOk), 1%nat).
 Proof. vm_compute. reflexivity. Qed.
 Definition ex_inner : list Z := [1; 109; 92; 243; 24; 0; 0; 0; 0; 0; 0; 0; 55; 151; 121; 188].
 Example C23_nonvacuous_gzip :
-  handle (fun z => match z with [1; 2; 3] => Some ex_inner | _ => None end) (fun _ _ => true) (fun _ => true) (fun _ => true)
-         1 8 7 [161; 207; 114; 48; 3; 1; 2; 3]
-  = ([ENotifyResult 24 [55; 151; 121; 188]], SOk).
+  handle_message (fun z => match z with [1; 2; 3] => Some ex_inner | _ => None end) (fun _ _ => true) (fun _ => true) (fun _ => true)
+         7 [161; 207; 114; 48; 3; 1; 2; 3]
+  = (([ENotifyResult 24 [55; 151; 121; 188]], SOk), 1%nat).
 Proof. vm_compute. reflexivity. Qed.
-(* the gzip budget is the one an input can exhaust: the same payload with gz = 0 *)
-Example C23_gzip_budget :
-  snd (handle (fun z => match z with [1; 2; 3] => Some ex_inner | _ => None end) (fun _ _ => true) (fun _ => true) (fun _ => true)
-              0 8 7 [161; 207; 114; 48; 3; 1; 2; 3]) = SErr HGz.
+(* a DEFLATE "quine" (content = the packed message itself) is cut off at the nesting limit *)
+Example C23_gzip_quine :
+  handle_message (fun _ => Some [161; 207; 114; 48; 3; 1; 2; 3]) (fun _ _ => true) (fun _ => true) (fun _ => true)
+         7 [161; 207; 114; 48; 3; 1; 2; 3]
+  = (([], SErr HDepth), Z.to_nat c_maxMessageNesting).
 Proof. vm_compute. reflexivity. Qed.
+(* a repeated pong id is harmless for a registry of open channels, and would panic otherwise *)
+Example C23_double_close_needs_delete :
+  close_all [(3, ChOpen)] [3; 3] = Ok [] /\ close_all [(3, ChClosed)] [3] = Panic.
+Proof. vm_compute. split; reflexivity. Qed.
